@@ -26,6 +26,4 @@ impl NameMap {
 }
 pub assume_specification<T: PartialEq> [<[T]>::contains] (s: &[T], x: &T) -> (r: bool)
     ensures r == s@.contains(*x);
-// graphql_parser::query::Value (default values of variables): opaque here
-#[verifier::external_body]
-pub struct GpValue { _p: core::marker::PhantomData<()> }
+
